@@ -105,6 +105,17 @@ func (s *State) instantiate(u *universal) {
 			s.alloc = saved
 			s.noTrig = false
 			s.assume(t)
+			if len(s.pendingTrig) > 0 {
+				pt := s.pendingTrig
+				s.pendingTrig = nil
+				if s.instDepth < 2 {
+					s.instDepth++
+					for _, p := range pt {
+						s.trigger(p[0], p[1])
+					}
+					s.instDepth--
+				}
+			}
 			return
 		}
 		terms := append([]string{}, s.terms[u.sorts[i]]...)
